@@ -451,6 +451,13 @@ def build(p):
   v_sqlite(p)
   from . import C08_views
   C08_views.build(p)
+  p.native_checks = [dict(
+      name='views_all_access_paths', driver=D, payload={'mode': 'sweep', 'fn': 'views'},
+      bound='16 byte ids (prefixes of one another, trailing zero bytes, empty id) x ~360 sequences of slice / subset / preprocess '
+            'operations x {in-memory, SQLite, subset}: ids, counts, sizes, clients(), shuffled_clients (each client once per pass), '
+            'get_clients order, get_client, KeyError outside the view, sorted iteration order of in-memory views',
+      why_bounded='shuffled_clients and the enumeration paths are compositions over generators (clients(), buffered_shuffle - the '
+                  'latter proved in C15) that are not under contract here; run on the real code on every check')]
   p.trust('client ids are elements of an arbitrary total order (only compared): order formulas valid in Z '
           'hold for bytes, incl. trailing zero bytes and prefixes',
           'T-IO sqlite3: primary-key point lookup returns the stored row or None; BLOB comparison in SQL '
